@@ -8,21 +8,24 @@
 //	| par n <N> m <M> cap <C> ops <op>* (th <op>*)+          prefix, then the th-blocks run concurrently
 //
 // op    := A c        AcceptConnection with transport c; an id in use is refused (real call), an id whose
-//                     connection was torn down comes back as a new incarnation on a new transport
 //
-//	| H c x t    Handshake packet on c up to and including the auth handler (x=0: handler refuses;
-//	             x>0: handler authenticates as client x = SetClientID+SetAuthenticated), t = c|t
-//	             (connection_type control|tunnel); the real handleHandshake then WAITS at the gate
-//	| Q c t      same, handler answers "challenge sent" (no field writes)
-//	| F c        release the gate of c: response is written, index updated
-//	| HS c x t / QS c t   = H/Q immediately followed by F
-//	| K x c      KickOldControlConnection(x, newConnID=c)      | S    cleanupStaleConnections()
-//	| O c        the control connection of c becomes older than the heartbeat timeout
-//	| B c        Heartbeat packet on c                         | X c  CloseConnection(c)
-//	| R c        RemoveControlConnection(c)                    | U c  clientRegistry.Unregister(c)
-//	| T c        RegisterTunnelConnection for c                | P c  peer breaks transport c (writes fail)
-//	| XF c / RF c / SF / BF c   = X / R / S / B while the cloud-control store is failing (DisconnectClientIfMatch,
-//	             DisconnectClient, EnsureClientOnline return an error); a cloud control is always configured
+//	                    connection was torn down comes back as a new incarnation on a new transport
+//
+//		| H c x t    Handshake packet on c up to and including the auth handler (x=0: handler refuses;
+//		             x>0: handler authenticates as client x = SetClientID+SetAuthenticated), t = c|t
+//		             (connection_type control|tunnel); the real handleHandshake then WAITS at the gate
+//		| Q c t      same, handler answers "challenge sent" (no field writes)
+//		| F c        release the gate of c: response is written, index updated
+//		| HS c x t / QS c t   = H/Q immediately followed by F
+//		| K x c      KickOldControlConnection(x, newConnID=c)      | S    cleanupStaleConnections()
+//		| O c        the control connection of c becomes older than the heartbeat timeout
+//		| B c        Heartbeat packet on c                         | X c  CloseConnection(c)
+//		| R c        RemoveControlConnection(c)                    | U c  clientRegistry.Unregister(c)
+//		| G c x      RegisterControlConnection(new ControlConnection of c): x=0 unauthenticated (limit eviction and/or
+//		             replacement of the registered entry of c), x>0 pre-authenticated temporary connection
+//		| T c        RegisterTunnelConnection for c                | P c  peer breaks transport c (writes fail)
+//		| XF c / RF c / SF / BF c   = X / R / S / B while the cloud-control store is failing (DisconnectClientIfMatch,
+//		             DisconnectClient, EnsureClientOnline return an error); a cloud control is always configured
 //
 // obs   := cl (<conn> <clientID> <auth> <same> | - - - -){M}  cn (<clientID> <auth> | - -) <inS> <inT> <closed>){N}
 //
@@ -432,7 +435,7 @@ func (o op) String() string {
 		return fmt.Sprintf("%s %d %d %s", o.k, o.a, o.b, o.t)
 	case "Q", "QS":
 		return fmt.Sprintf("%s %d %s", o.k, o.a, o.t)
-	case "K", "Kb":
+	case "K", "Kb", "G":
 		return fmt.Sprintf("%s %d %d", o.k, o.a, o.b)
 	}
 	return fmt.Sprintf("%s %d", o.k, o.a)
@@ -616,6 +619,28 @@ func (w *world) exec(o op, gated bool) {
 		w.sm.RemoveControlConnection(cid(c))
 	case "U":
 		w.sm.VerifUnregister(cid(c))
+	case "G":
+		// RegisterControlConnection of a new ControlConnection object built from SessionManager's entry of c, as
+		// handleHandshake (x = 0) and notifyTargetClientToOpenTunnel (x > 0: temporary, pre-authenticated) build it
+		conn, ok := w.sm.GetConnection(cid(c))
+		if !ok {
+			return
+		}
+		x := int64(o.b)
+		if x > 0 && (w.sm.GetControlConnectionByClientID(x) != nil || w.sm.GetControlConnection(cid(c)) != nil || w.tr[c].closed.Load()) {
+			return // not the situation the temporary connection is built in
+		}
+		var ra net.Addr
+		if conn.RawConn != nil {
+			ra = conn.RawConn.RemoteAddr()
+		}
+		cc := session.NewControlConnection(conn.ID, conn.Stream, ra, "tcp")
+		if x > 0 {
+			cc.SetClientID(x)
+			cc.SetAuthenticated(true)
+		}
+		w.sm.RegisterControlConnection(cc)
+		tick()
 	case "T":
 		if conn, ok := w.sm.GetConnection(cid(c)); ok {
 			w.sm.RegisterTunnelConnection(session.NewTunnelConnection(conn.ID, conn.Stream, nil, "tcp"))
@@ -743,7 +768,7 @@ func parseOps(toks []string) ([]op, []string) {
 		case "Q", "QS":
 			ops = append(ops, op{k: k, a: atoi(toks[1]), t: toks[2]})
 			toks = toks[3:]
-		case "K", "Kb":
+		case "K", "Kb", "G":
 			ops = append(ops, op{k: k, a: atoi(toks[1]), b: atoi(toks[2])})
 			toks = toks[3:]
 		case "Ke", "A", "F", "O", "B", "X", "R", "U", "T", "P", "XF", "RF", "BF", "PF":
@@ -794,6 +819,10 @@ func inUniverse(tc *tcase) bool {
 					ok = false
 				}
 				if o.b > tc.n {
+					ok = false
+				}
+			case "G":
+				if o.a >= tc.n || o.b > tc.m {
 					ok = false
 				}
 			case "H", "HS":
@@ -990,10 +1019,13 @@ func alphabet(n, m int, full bool) []op {
 			al = append(al, op{k: "HS", a: c, b: x, t: "t"})
 		}
 		al = append(al, op{k: "F", a: c}, op{k: "X", a: c}, op{k: "R", a: c}, op{k: "U", a: c}, op{k: "O", a: c}, op{k: "P", a: c})
-		al = append(al, op{k: "XF", a: c})
+		al = append(al, op{k: "XF", a: c}, op{k: "G", a: c, b: 0})
 		if full {
 			al = append(al, op{k: "HS", a: c, b: 0, t: "c"}, op{k: "QS", a: c, t: "c"}, op{k: "B", a: c}, op{k: "T", a: c})
 			al = append(al, op{k: "RF", a: c}, op{k: "A", a: c})
+			for x := 1; x <= m; x++ {
+				al = append(al, op{k: "G", a: c, b: x})
+			}
 		}
 	}
 	for x := 1; x <= m; x++ {
@@ -1018,7 +1050,7 @@ func canonical(seq []op, n int) bool {
 			if o.b < n {
 				c = o.b
 			}
-		case "H", "HS":
+		case "H", "HS", "G":
 			c = o.a
 			if o.b > 0 {
 				x = o.b
@@ -1119,8 +1151,10 @@ func randOp(r *vc.Rand, n, m int, accepted []bool) op {
 		return op{k: vc.Pick(r, []string{"R", "R", "RF"}), a: c}
 	case p < 94:
 		return op{k: "U", a: c}
-	case p < 97:
+	case p < 96:
 		return op{k: "T", a: c}
+	case p < 98:
+		return op{k: "G", a: c, b: vc.Pick(r, []int{0, 0, x})}
 	default:
 		return op{k: vc.Pick(r, []string{"P", "P", "PF"}), a: c}
 	}
@@ -1252,6 +1286,7 @@ func gen(out *vc.Out, r *vc.Rand, thorough bool) {
 	} else {
 		genExhaustive(&jobs, "seq", 3, 2, 0, 3, true)
 		genExhaustive(&jobs, "seq", 3, 2, 2, 2, true)
+		genExhaustive(&jobs, "seq", 3, 1, 2, 3, false)
 		genRandom(&jobs, "seq", r.Fork(), 20000)
 		genPar(&jobs, r.Fork(), 2000)
 		genExhaustive(&jobs, "adp", 3, 2, 0, 2, true)
